@@ -102,5 +102,11 @@ Ltac py_case :=
       end
   end.
 
-Ltac py_crush := repeat (py_simpl; try py_case); py_simpl; try reflexivity; try lia;
+(* write every comparison with <? / <=? so that code and model share their tests *)
+Ltac py_norm := rewrite ?Z.gtb_ltb, ?Z.geb_leb in *.
+
+Ltac py_crush := py_norm; repeat (py_simpl; try py_case); py_simpl; try reflexivity; try lia;
                  try (f_equal; lia); try (repeat f_equal; lia).
+
+(* [bind B K = bind B' K'] : split into the block and the continuation *)
+Ltac py_bind_ext := apply bind_ext; [ | intros ].
